@@ -262,3 +262,47 @@ func H_c05_handshake() {
 	symAssert(err == ErrNoFB2, "sid-without-b2-refused")
 	symReach("end")
 }
+
+// C05 K2b: ordering of long queues (sort.Sort switches algorithm above 12
+// elements: a comparator that relies on stability only shows there)
+func H_c05_sort_large() {
+	n := [...]int{13, 16, 20}[symInt(0, 2)]
+	sizeTpl := symInt(0, 3)
+	precTpl := symInt(0, 2)
+	titles := [...]string{"x //WL2K Z/ a", "//WL2K O/", "b //WL2K P/", "plain"}
+	props := make([]*Proposal, n)
+	for i := range props {
+		var sz int
+		switch sizeTpl {
+		case 0:
+			sz = n - i // descending
+		case 1:
+			sz = i // ascending
+		case 2:
+			sz = (i * 7) % n // scattered
+		case 3:
+			sz = (i * 5) % 3 // many ties
+		}
+		if i < 3 {
+			sz += symInt(0, 1) * n // three of them move to the far end or not
+		}
+		var t string
+		switch precTpl {
+		case 0:
+			t = titles[3]
+		case 1:
+			t = titles[i%2*3] // flash / routine alternating
+		case 2:
+			t = titles[i%4]
+		}
+		props[i] = &Proposal{mid: "M" + refItoa(100+i), compressedSize: sz, title: t}
+	}
+	sortProposals(props)
+	for i := 1; i < len(props); i++ {
+		a, b := props[i-1], props[i]
+		pa, pb := a.precedence(), b.precedence()
+		ok := pa < pb || (pa == pb && (a.compressedSize < b.compressedSize || (a.compressedSize == b.compressedSize && a.mid <= b.mid)))
+		symAssert(ok, "sorted-by-precedence-then-size-then-mid")
+	}
+	symReach("end")
+}
